@@ -273,3 +273,19 @@ Example flood_counts_frames_not_bytes_nonvacuous :
   snd (run_events d (counted [empty_cont; empty_cont; empty_cont; empty_cont])) = true /\
   qualifying (mkfh 1 FData 8 1) 0 = Some 8 /\ qualifying (mkfh 1 FData 9 1) 0 = None /\ qualifying (mkfh 4 FData 0 1) 4 = None.
 Proof. vm_compute. repeat split; reflexivity. Qed.
+
+(** 10. A response that has started is never continued by a default answer.
+    When the proxy itself resets a backend stream (its trailers are malformed,
+    its DATA overruns the content-length), a client that already holds bytes
+    of the 200 gets the abort (RST_STREAM / close), whatever else is true.
+    [reset_appends_502_before_fix]: without the guard the 502 page followed
+    the bytes of the 200 and the stream ended cleanly (black-box faults
+    bad_trailers_mid / overrun_mid, C01 finding trailers-into-full-buffer). *)
+Theorem reset_after_response_started_aborts :
+  forall request_consumed, on_backend_reset true true request_consumed = RAbort.
+Proof. intros []; reflexivity. Qed.
+
+Example reset_appends_502_before_fix :
+  on_backend_reset false true true = RDefault502 /\ on_backend_reset true false true = RDefault502 /\ on_backend_reset true false false = RRetry.
+Proof. repeat split; reflexivity. Qed.
+
